@@ -175,16 +175,49 @@ def model_fin(M, n, l, p, levels_from_table=False):
     return evals, why
 
 
-def model_where(M, col, positions, form, fl):
-    """Evaluations whose env/lrn/val row has `col` equal to / among the selected values.  -> (kwargs value, evals)"""
+def where_values(col, positions, form, fl):
     if col in ECOLS: pool, idx = (ENV_IDS[fl] if col == 'environment_id' else ENV_P[fl][col]), 0
     elif col in LCOLS: pool, idx = (LRN_IDS[fl] if col == 'learner_id' else LRN_P[fl][col]), 1
     else: pool, idx = (VAL_IDS[fl] if col == 'evaluator_id' else VAL_P[fl][col]), 2
     values = [pool[q] if q < len(pool) else 99 for q in positions]
-    arg = values[0] if form == 'eq' else list(values)
-    table = (M.envs, M.lrns, M.vals)[idx]
-    evals = {k: rs for k, rs in M.evals.items() if k[idx] in table and table[k[idx]][col] in values}
-    return arg, evals
+    return idx, values, (values[0] if form == 'eq' else list(values))
+
+
+def model_where(M, step, fl):
+    """-> (kwargs of the Result.where call, evaluations (with their rows) expected to remain, feature, short name)
+    where      one keyword on a parameter column: evaluations whose env/lrn/val row has the value (eq) / one of the values (in)
+    where2     two keywords on columns of ONE parameter table: union ("multiple kwargs in a single where applies an or"), in the given keyword order
+    wherer     reward = / in the rewards of the first rows of the named triples (an interaction column: single rows survive)
+    wherei     index = k (an interaction column)"""
+    k0 = step[0]
+    if k0 in ('where', 'where2'):
+        conds = [step[1:4]] if k0 == 'where' else [list(c) for c in step[1:]]
+        kwargs, match = {}, set()
+        for col, positions, form in conds:
+            idx, values, arg = where_values(col, positions, form, fl)
+            kwargs[col] = arg
+            table = (M.envs, M.lrns, M.vals)[idx]
+            match |= {k for k in M.evals if k[idx] in table and table[k[idx]][col] in values}
+        evals = {k: rs for k, rs in M.evals.items() if k in match}
+        if k0 == 'where': return kwargs, evals, f'{kind(conds[0][0])} column {conds[0][2]}', 'where'
+        return kwargs, evals, f'two keywords on the {("environment", "learner", "evaluator")[idx]} table ({kind(conds[0][0])} then {kind(conds[1][0])} column)', 'where[2 keywords]'
+    if k0 == 'wherer':
+        values = [(e * 9 + l * 3 + v) * 4 + REWARD_STEP[0] for e, l, v in step[1]]
+        arg = values[0] if step[2] == 'eq' else list(values)
+        evals = {k: [r for r in rs if r[1] in values] for k, rs in M.evals.items()}
+        return {'reward': arg}, {k: rs for k, rs in evals.items() if rs}, f'reward {step[2]}', 'where[interaction column]'
+    if k0 == 'wherei':
+        evals = {k: [r for r in rs if r[0] == step[1]] for k, rs in M.evals.items()}
+        return {'index': step[1]}, {k: rs for k, rs in evals.items() if rs}, 'index eq', 'where[interaction column]'
+    raise ValueError(step)
+
+
+WHERE_KINDS = ('where', 'where2', 'wherer', 'wherei')
+
+
+def unreferenced(M):
+    ks = list(M.evals)
+    return [set(M.envs) - {k[0] for k in ks}, set(M.lrns) - {k[1] for k in ks}, set(M.vals) - {k[2] for k in ks}]
 
 
 # ------------------------------------------------------------------ reference: averages
@@ -264,6 +297,18 @@ WHERES = [['where', 'learner_id', [0], 'eq'], ['where', 'learner_id', [1, 0], 'i
           ['where', 'evaluator_id', [0], 'eq'], ['where', 'learner_id', [9], 'eq']]
 
 
+# two keywords on ONE parameter table; the matches of the second keyword precede those of the first in table order (and the reverse)
+WHERE2 = [['where2', ['family', [2], 'eq'], ['lr', [1], 'eq']], ['where2', ['lr', [1], 'eq'], ['family', [2], 'eq']],
+          ['where2', ['learner_id', [2], 'eq'], ['lr', [1], 'eq']], ['where2', ['lr', [1], 'eq'], ['learner_id', [2], 'eq']],
+          ['where2', ['learner_id', [1], 'eq'], ['family', [0], 'eq']],
+          ['where2', ['data_id', [2], 'eq'], ['seed', [1], 'eq']], ['where2', ['seed', [1], 'eq'], ['data_id', [2], 'eq']],
+          ['where2', ['shape', [2], 'eq'], ['seed', [1], 'eq']], ['where2', ['environment_id', [2], 'eq'], ['seed', [1], 'eq']],
+          ['where2', ['environment_id', [1], 'eq'], ['data_id', [0], 'eq']]]
+# keywords on interaction columns: single rows survive, whole triples disappear
+WHEREI = [['wherer', [[0, 0, 0], [0, 1, 0]], 'in'], ['wherer', [[0, 0, 0], [1, 0, 0]], 'in'], ['wherer', [[0, 0, 0]], 'eq'],
+          ['wherer', [[0, 0, 0], [0, 0, 1]], 'in'], ['wherei', 1]]
+
+
 def ops_full():
     """Every operation (a list of steps) applied to the small shapes."""
     out = []
@@ -295,6 +340,17 @@ def ops_full():
         for w in WHERES[:3]:
             out.append([['fin'] + f1, w, ['fin', 'min', 'learner_id', 'environment_id']])
         out.append([['fin'] + f1, ['raw', 'index', 'learner_id', 'environment_id', 2]])
+    for w in WHERE2:
+        for f in fins[1:5]:
+            out.append([w, ['fin'] + f])
+        out.append([w, ['fin', None, 'learner_id', 'environment_id'], ['fin', 2, None, None]])
+        out.append([w, ['raw', 'index', 'learner_id', 'environment_id', None]])
+        out.append([w, ['raw', 'data_id', 'learner_id', None, 2]])
+        out.append([w, ['best', 'family', 'environment_id', None], ['fin', 'min', None, None]])
+    for w in WHEREI:
+        for f in ([None, None, None], [1, None, None], ['min', None, None], [None, 'learner_id', 'environment_id']):
+            out.append([w, ['fin'] + f])
+        out.append([w, ['raw', 'index', 'learner_id', None, None]])
     for p in ('environment_id', 'data_id'):
         for n in (None, 1):
             out.append([['best', 'family', p, n], ['fin', 'min', 'learner_id', 'environment_id']])
@@ -320,6 +376,12 @@ def ops_reduced():
     out.append([['fin', 2, None, None], ['fin', 'min', 'learner_id', 'environment_id']])
     out.append([['fin', None, 'learner_id', 'environment_id'], ['raw', 'index', 'learner_id', None, 2]])
     out.append([['best', 'family', 'environment_id', None], ['fin', 'min', 'learner_id', 'environment_id']])
+    for w in (WHERE2[0], WHERE2[2], WHERE2[4], WHERE2[5], WHERE2[9]):
+        out.append([w, ['fin', 2, None, None]])
+        out.append([w, ['fin', 'min', 'learner_id', 'environment_id']])
+    out.append([WHERE2[0], ['raw', 'index', 'learner_id', 'environment_id', None]])
+    out.append([WHEREI[0], ['fin', 1, None, None]])
+    out.append([WHEREI[1], ['fin', 'min', None, None]])
     return out
 
 
@@ -328,11 +390,12 @@ OPS = {'full': ops_full(), 'red': ops_reduced()}
 # (E, L, V, lengths alphabet, flavours, ops level)
 SHAPES = {
     'quick': [(1, 1, 1, (0, 1, 3), (0, 1), 'full'), (2, 1, 1, (0, 1, 3), (0, 1), 'full'), (1, 2, 1, (0, 1, 3), (0, 1), 'full'),
-              (1, 1, 2, (0, 1, 3), (0, 1), 'full'), (2, 2, 1, (0, 1, 3), (0, 1), 'full'),
-              (1, 2, 2, (0, 1, 3), (0,), 'full'), (2, 3, 1, (0, 1, 3), (0,), 'red'), (2, 2, 2, (0, 1, 3), (0,), 'red')],
+              (1, 1, 2, (0, 1, 3), (0, 1), 'full'), (2, 2, 1, (0, 1, 3), (0, 1), 'full'), (3, 1, 1, (0, 1, 3), (0, 1), 'full'),
+              (1, 3, 1, (0, 1, 3), (0, 1), 'full'), (1, 2, 2, (0, 1, 3), (0,), 'full'), (2, 3, 1, (0, 1, 3), (0,), 'red'), (2, 2, 2, (0, 1, 3), (0,), 'red')],
     'thorough': [(1, 1, 1, (0, 1, 2, 3), (0, 1), 'full'), (2, 1, 1, (0, 1, 2, 3), (0, 1), 'full'), (1, 2, 1, (0, 1, 2, 3), (0, 1), 'full'),
                  (1, 1, 2, (0, 1, 2, 3), (0, 1), 'full'), (2, 2, 1, (0, 1, 2, 3), (0, 1), 'full'),
                  (1, 2, 2, (0, 1, 2, 3), (0, 1), 'full'), (2, 1, 2, (0, 1, 2, 3), (0, 1), 'full'),
+                 (3, 1, 1, (0, 1, 2, 3), (0, 1), 'full'), (1, 3, 1, (0, 1, 2, 3), (0, 1), 'full'),
                  (3, 2, 1, (0, 1, 3), (0, 1), 'full'), (2, 3, 1, (0, 1, 3), (0, 1), 'full'),
                  (3, 2, 1, (0, 1, 2, 3), (0,), 'red'), (2, 3, 1, (0, 1, 2, 3), (0,), 'red'),
                  (2, 2, 2, (0, 1, 3), (1,), 'red'), (2, 2, 2, (0, 1, 2, 3), (0,), 'red'), (3, 3, 1, (0, 1, 3), (0,), 'red'),
@@ -368,7 +431,7 @@ class C18(Check):
             'subset) x 2 parameter flavours (duplicate, tuple-valued, mixed-type/None values; non-contiguous ids; reversed row order); on a fresh '
             'Result per operation: where_fin/filter_fin for n in {None,min,1,2,3} x l in {None, learner_id, family, lr, [family,lr], '
             '[learner_id,evaluator_id]} x p in {None, environment_id, data_id, [data_id,seed], [environment_id,evaluator_id]}; chains '
-            'where->where_fin, where_fin->where_fin, where_fin->where->where_fin, where_best->where_fin, where->where_fin->where_best, where_fin->where_best->where_fin, where->raw_learners, where_fin->raw_learners; '
+            'where->where_fin (where: one keyword on an id/parameter column; TWO keywords on columns of one parameter table in both orders, the second keyword matching rows that precede the first keyword\'s; keywords on the interaction columns reward/index), where_fin->where_fin, where_fin->where->where_fin, where_best->where_fin, where->where_fin->where_best, where_fin->where_best->where_fin, where->raw_learners, where_fin->raw_learners; '
             'raw_learners for x in {index, environment_id, data_id, [data_id,seed], family} x l in {full_name, learner_id, family, [family,lr]} '
             'x p in {environment_id, None, data_id} x span in {None,1,2,5} (large shapes: a reduced operation list); plus moving_average for '
             'every value sequence of length <=5 over a 3 (thorough 5) letter alphabet x span in {None,1,2,3,4,5,9} x weights in {None, exp, 3-4 '
@@ -378,10 +441,10 @@ class C18(Check):
         'interaction indexes are 1..len per evaluation (as written by coba experiments); the length of an evaluation is its number of rows',
         'pairing is applied only when l or p is given (where_fin(n) alone may leave an environment with a single learner, as the pinned tests do); a missing l / p defaults to learner_id / environment_id (class docstring, statement)',
         'the levels of l that a pairing group must cover are those that occur in the interactions; when a parameter row of l\'s table has no interaction at all an empty result is accepted as well',
-        'parameter rows that were already unreferenced in the input need not be removed by a where_fin that was given neither l nor p (coba prunes only when it drops something); with l or p they must be (pinned test)',
+        'parameter rows that were already unreferenced in the Result the chain STARTED from (the caller\'s constructor input) need not be removed by a where_fin that was given neither l nor p (coba prunes only when it drops something); with l or p they must be (pinned test); rows that a where step of the chain left unreferenced must be gone after the final where_fin',
         'row order inside the four tables, logging, full_name strings (columns of raw_learners(l=full_name) are matched by content), order of the values inside one raw_learners cell are not constrained',
         'raw_learners on a Result in which nothing survives may raise or return an empty table; cells without data must hold no finite value',
-        'where / where_best are only intermediate steps: where must select exactly the evaluations of the matching rows and stay forward-consistent; the output of where_best is taken as it is (only forward consistency and unaltered cells are demanded), where_best(p=None) and exceptions of where_best are not judged',
+        'where / where_best are only intermediate steps: where must select exactly the interaction rows of the matching rows (several keywords on one table: union, as documented; keywords on different tables are not used) and stay forward-consistent without repeated parameter rows (unreferenced rows after where alone are not judged); the output of where_best is taken as it is (only forward consistency and unaltered cells are demanded), where_best(p=None) and exceptions of where_best are not judged',
         'moving_average: weights are positive; weights="exp" with span=None is undefined (an exception is accepted); comparison of averages with relative tolerance 1e-9 against exact rationals',
         'x=["index"] (list form), Missing parameter values (ragged parameter tables), unhashable values, column names present in two tables, plotting and raw_contrast are outside the alphabet',
     ]
@@ -437,19 +500,18 @@ class C18(Check):
                 acc.outcome(('ma', sk, wk, n))
 
     # -------------------------------------------------------------- one step on the real object + comparison
-    def do_step(self, cur, M, step, fl, rec, ctx):
+    def do_step(self, cur, M, step, fl, rec, ctx, exempt=None):
         """Apply `step` to the real Result `cur` whose content is the model M.
         -> (real output or None, model of the output or None).  None = stop the chain (violation reported or nothing to go on)."""
-        kindname = step[0]
+        kindname = 'where' if step[0] in WHERE_KINDS else step[0]
+        if exempt is None: exempt = unreferenced(M)
         if kindname == 'where':
-            _, col, positions, form = step
-            arg, exp_evals = model_where(M, col, positions, form, fl)
+            kwargs, exp_evals, feat, _ = model_where(M, step, fl)
             comp = 'where'
-            feat = f'{kind(col)} column {form}'
             try:
-                out = cur.where(**{col: arg})
+                out = cur.where(**kwargs)
             except Exception as e:      # noqa
-                rec.violation(f'{comp}|raises {type(e).__name__}|{feat}{ctx}', f'where({col}={arg!r}) raised {e!r}'); return None, None
+                rec.violation(f'{comp}|raises {type(e).__name__}|{feat}{ctx}', f'where(**{kwargs!r}) raised {e!r}'); return None, None
         elif kindname == 'fin':
             n, l, p = step[1:4]
             method = step[4] if len(step) > 4 else 'where_fin'
@@ -494,7 +556,7 @@ class C18(Check):
             if not self.same_evals(got_evals, exp_evals):
                 extra = sorted(set(got_evals) - set(exp_evals)); missing = sorted(set(exp_evals) - set(got_evals))
                 mode = 'kept evaluations of rows that do not match' if extra else 'lost evaluations of matching rows' if missing else 'interaction rows altered'
-                rec.violation(f'{comp}|{mode}|{feat}{ctx}', f'where({col}={arg!r}) on evaluations {sorted(M.evals)} -> {sorted(got_evals)}, expected {sorted(exp_evals)}')
+                rec.violation(f'{comp}|{mode}|{feat}{ctx}', f'where(**{kwargs!r}) on evaluations {self.lens_of(M.evals)} -> {self.lens_of(got_evals)}, expected {self.lens_of(exp_evals)}')
                 return None, None
         else:
             for k, rs in got_evals.items():
@@ -519,8 +581,8 @@ class C18(Check):
                               f'{step} on evaluations {self.lens_of(M.evals)}: interactions use {name} ids {sorted(used, key=repr)}, table has {ids}'); return None, None
             if kindname == 'fin':
                 unref = set(ids) - used
-                if not (l or p):     # rows that were unreferenced before a pure length filter may stay
-                    unref -= set(old) - {k[idx] for k in M.evals}
+                if not (l or p):     # rows that were unreferenced in the Result the chain started from may survive a pure length filter
+                    unref -= exempt[idx]
                 if unref:
                     rec.violation(f'{comp}|unreferenced {name} row kept|{feat}{ctx}',
                                   f'{step} on evaluations {self.lens_of(M.evals)}: {name} ids {sorted(unref, key=repr)} are in the table but in no interaction row (kept evaluations {sorted(exp_evals)})'); return None, None
@@ -672,7 +734,7 @@ class C18(Check):
             if k: simple, key = trial, k
         if key: rec.violations[before:] = [(key, w0)]
 
-    def step_checked(self, cur, M, step, fl, rec, ctx):
+    def step_checked(self, cur, M, step, fl, rec, ctx, exempt=None):
         """do_step / do_raw plus root-cause classification of a failure (re-runs variants of the step on fresh Results
         with the same content; only ever executed for failing steps, and a deterministic function of (content, step))."""
         before = len(rec.violations)
@@ -689,7 +751,7 @@ class C18(Check):
                     return None, None
             if len(rec.violations) > before: self.simplify_key(M, fl, step, rec, before, ctx)
             return None, None
-        out, newM = self.do_step(cur, M, step, fl, rec, ctx)
+        out, newM = self.do_step(cur, M, step, fl, rec, ctx, exempt)
         if len(rec.violations) == before or step[0] != 'fin': return out, newM
         k0, w0 = rec.violations[before]
         mode = k0.split('|')[1]
@@ -723,10 +785,11 @@ class C18(Check):
             rec.violation('Result|constructor altered the interaction rows|constructor', f'{sorted(snap0[3])} vs {M0.rows()}'); return
         cur, M = res, M0
         done = []
+        exempt = unreferenced(M0)      # parameter rows the caller's Result never used; everything else must stay referenced along the chain
         for step in op:
             ctx = '' if not done else ' after ' + '+'.join(done)
             before = len(rec.violations)
-            out, newM = self.step_checked(cur, M, step, fl, rec, ctx)
+            out, newM = self.step_checked(cur, M, step, fl, rec, ctx, exempt)
             if len(rec.violations) > before and done:
                 # does the same step fail on a freshly constructed Result with the same content?  then it is not a chain effect
                 r2 = _Rec()
@@ -734,13 +797,14 @@ class C18(Check):
                 if r2.violations: rec.violations[before:] = r2.violations
             if out is None: break
             cur, M = out, newM
-            done.append({'fin': 'where_fin', 'best': 'where_best'}.get(step[0], step[0]))
+            if step[0] == 'best': exempt = unreferenced(M)      # the output of where_best is taken as it is
+            done.append({'fin': 'where_fin', 'best': 'where_best', 'where2': 'where[2 keywords]', 'wherer': 'where[interaction column]', 'wherei': 'where[interaction column]'}.get(step[0], step[0]))
         try:
             snap1 = readback(res)
         except Unreadable as e:
             snap1 = str(e)
         if snap1 != snap0:
-            rec.violation(f'{ {"fin": "where_fin", "best": "where_best", "raw": "raw_learners"}.get(op[0][0], op[0][0]) }|the original Result was modified|{len(op)} step(s)',
+            rec.violation(f'{ {"fin": "where_fin", "best": "where_best", "raw": "raw_learners", "where2": "where", "wherer": "where", "wherei": "where"}.get(op[0][0], op[0][0]) }|the original Result was modified|{len(op)} step(s)',
                           f'{op}: tables before {snap0}, after {snap1}')
 
     def run_case(self, case, acc):
